@@ -475,7 +475,7 @@ func genC19(t *rapid.T, tier Tier) C19Case {
 	genStack = func(depth int) Node {
 		n := Node{T: "stack", Kind: rapid.SampledFrom(stackKinds).Draw(t, "kind"),
 			NegIdx: rapid.Bool().Draw(t, "negidx"), FwdIdx: rapid.IntRange(0, 3).Draw(t, "fwdidx") == 0,
-			Paren: rapid.Bool().Draw(t, "paren")}
+			Paren: rapid.Bool().Draw(t, "paren"), Amb: drawAmbient(t, true)}
 		if depth > 0 {
 			n.Wrap = rapid.SampledFrom([]int{0, 0, WrapAlias, WrapPtr}).Draw(t, "wrap")
 		}
